@@ -225,6 +225,8 @@ type lval struct {
 	fields  []*lval
 	tuple   []*lval
 	cmp     *lcmp
+	conj    []*lcmp // struct equality: all field comparisons hold (negated: conjNeg)
+	conjNeg bool
 	cbool   *bool
 	addr    *lmemKey
 	orParts []*lval // x | y | ... of exact non-negative values that could not be added
@@ -355,6 +357,9 @@ type limbEngine struct {
 	inline  func(*ssa.Function) bool
 	// conjunction specifications read the top-level equalities as facts; they are then not substituted away
 	noTopSubst bool
+	topFns     map[*ssa.Function]bool // functions whose comparisons count as the analysed function's own (a boolean returned through a chain of helpers)
+	atomise    bool                   // name every difference/sum of two input coordinates (isCollinear's a, b, c, d)
+	diffDefs   map[string]lpoly
 	paths      int
 	instrs  int
 }
@@ -420,6 +425,37 @@ func (e *limbEngine) opaque(st *lstate, t types.Type, why string) *lval {
 		v.real = true
 	}
 	return v
+}
+
+func (e *limbEngine) isTop(fr *lframe, site *ssa.BinOp) bool {
+	if site == nil {
+		return false
+	}
+	if e.topFns != nil {
+		return e.topFns[site.Parent()]
+	}
+	return fr.top && site.Parent() == fr.f
+}
+
+// singleAtom: p is exactly one atom with coefficient 1.
+func singleAtom(p lpoly) (string, bool) {
+	if len(p) != 1 {
+		return "", false
+	}
+	for m, c := range p {
+		if m != "" && !strings.Contains(m, "*") && c.Cmp(big.NewInt(1)) == 0 {
+			return m, true
+		}
+	}
+	return "", false
+}
+
+// expandDiffs replaces the named differences by their definitions.
+func (e *limbEngine) expandDiffs(p lpoly) lpoly {
+	for a, d := range e.diffDefs {
+		p = p.subst(a, d)
+	}
+	return p
 }
 
 // eff returns the polynomial and wrap status of v on this path.
@@ -768,6 +804,9 @@ func (e *limbEngine) unop(fr *lframe, in *ssa.UnOp) *lval {
 			b := !*x.cbool
 			return &lval{cbool: &b}
 		}
+		if x.conj != nil {
+			return &lval{conj: x.conj, conjNeg: !x.conjNeg}
+		}
 		if x.cmp != nil {
 			neg := map[token.Token]token.Token{token.EQL: token.NEQ, token.NEQ: token.EQL, token.LSS: token.GEQ, token.GEQ: token.LSS, token.GTR: token.LEQ, token.LEQ: token.GTR}
 			return &lval{cmp: &lcmp{op: neg[x.cmp.op], l: x.cmp.l, r: x.cmp.r, site: x.cmp.site}}
@@ -817,6 +856,16 @@ func (e *limbEngine) binop(fr *lframe, in *ssa.BinOp) *lval {
 	x, y := e.get(fr, in.X), e.get(fr, in.Y)
 	switch in.Op {
 	case token.EQL, token.NEQ, token.LSS, token.LEQ, token.GTR, token.GEQ:
+		if x.fields != nil && y.fields != nil && len(x.fields) == len(y.fields) && (in.Op == token.EQL || in.Op == token.NEQ) {
+			v := &lval{conjNeg: in.Op == token.NEQ}
+			for i := range x.fields {
+				if x.fields[i].p == nil || y.fields[i].p == nil {
+					return e.opaque(st, in.Type(), "comparison of nested structs")
+				}
+				v.conj = append(v.conj, &lcmp{op: token.EQL, l: x.fields[i], r: y.fields[i], site: in})
+			}
+			return v
+		}
 		if x.p == nil || y.p == nil {
 			if (x.cbool != nil || x.cmp != nil) && (y.cbool != nil || y.cmp != nil) && (in.Op == token.EQL || in.Op == token.NEQ) {
 				kx, vx := e.decide(fr, x)
@@ -848,6 +897,27 @@ func (e *limbEngine) binop(fr *lframe, in *ssa.BinOp) *lval {
 			return &lval{p: pmul(px, py), real: true}
 		}
 		return e.opaque(st, in.Type(), "float "+in.Op.String())
+	}
+	if e.atomise && (in.Op == token.ADD || in.Op == token.SUB) && !tx && !ty {
+		ax, okx := singleAtom(px)
+		ay, oky := singleAtom(py)
+		if okx && oky && strings.HasPrefix(ax, "in") && strings.HasPrefix(ay, "in") {
+			def := padd(px, py)
+			if in.Op == token.SUB {
+				def = psub(px, py)
+			}
+			name := fmt.Sprintf("d#%s", def.String())
+			name = strings.NewReplacer(" ", "", "*", "x").Replace(name)
+			if e.diffDefs == nil {
+				e.diffDefs = map[string]lpoly{}
+			}
+			e.diffDefs[name] = def
+			if st.lo[name] == nil {
+				lo, hi := st.interval(def)
+				st.lo[name], st.hi[name] = lo, hi
+			}
+			return e.mk(st, patom(name), in.Type(), false)
+		}
 	}
 	switch in.Op {
 	case token.ADD:
@@ -1094,6 +1164,22 @@ func (e *limbEngine) decide(fr *lframe, v *lval) (known, val bool) {
 	if v.cbool != nil {
 		return true, *v.cbool
 	}
+	if v.conj != nil {
+		all := true
+		for _, c := range v.conj {
+			k, val := e.decide(fr, &lval{cmp: c})
+			if k && !val {
+				return true, v.conjNeg // one field differs
+			}
+			if !k {
+				all = false
+			}
+		}
+		if all {
+			return true, !v.conjNeg
+		}
+		return false, false
+	}
 	c := v.cmp
 	if c == nil {
 		return false, false
@@ -1157,7 +1243,7 @@ func (e *limbEngine) note(fr *lframe, v *lval, val bool) {
 	if v.cmp != nil && v.cmp.site != nil {
 		pl, _ := e.eff(fr.st, v.cmp.l)
 		pr, _ := e.eff(fr.st, v.cmp.r)
-		fr.st.facts = append(fr.st.facts, lfact{op: v.cmp.op, d: psub(pl, pr), site: v.cmp.site, top: fr.top && v.cmp.site.Parent() == fr.f, val: val})
+		fr.st.facts = append(fr.st.facts, lfact{op: v.cmp.op, d: psub(pl, pr), site: v.cmp.site, top: e.isTop(fr, v.cmp.site), val: val})
 	}
 }
 
@@ -1249,6 +1335,16 @@ func (e *limbEngine) tighten(st *lstate, d lpoly, op token.Token) bool {
 // assume refines the state with `v == val`; false = the branch is infeasible.
 func (e *limbEngine) assume(fr *lframe, v *lval, val bool) bool {
 	st := fr.st
+	if v.conj != nil {
+		if val != v.conjNeg { // all fields equal
+			for _, c := range v.conj {
+				if !e.assume(fr, &lval{cmp: c}, true) {
+					return false
+				}
+			}
+		}
+		return true // "some field differs" refines nothing
+	}
 	c := v.cmp
 	if c == nil {
 		return true
@@ -1258,7 +1354,7 @@ func (e *limbEngine) assume(fr *lframe, v *lval, val bool) bool {
 		op = map[token.Token]token.Token{token.EQL: token.NEQ, token.NEQ: token.EQL, token.LSS: token.GEQ, token.GEQ: token.LSS, token.GTR: token.LEQ, token.LEQ: token.GTR}[op]
 	}
 	if pl, ok := e.carryIdiom(st, c); ok {
-		top := fr.top && c.site != nil && c.site.Parent() == fr.f
+		top := e.isTop(fr, c.site)
 		if op == token.EQL { // wrapped to zero: the mathematical value is 2^64 (or 0)
 			lo, _ := st.interval(pl)
 			if lo.Sign() > 0 {
@@ -1282,7 +1378,7 @@ func (e *limbEngine) assume(fr *lframe, v *lval, val bool) bool {
 	}
 	pl, tl := e.eff(st, c.l)
 	pr, tr := e.eff(st, c.r)
-	top := fr.top && c.site != nil && c.site.Parent() == fr.f
+	top := e.isTop(fr, c.site)
 	if s, trueMeansWrapped, ok := e.cmpCarryIdiom(st, c); ok {
 		if val == trueMeansWrapped {
 			st.wrap1[s] = true
